@@ -48,6 +48,20 @@ def linemap():
     return mapping
 
 
+def _workers_gone_while_stopping(S):
+    flags = [k for k in S if k.startswith("P.") and k.endswith("_done_event.flag")]
+    states = [v for k, v in S.items() if k.startswith("W.state[")]
+    return bool(flags) and S[flags[0]] and all(v != 2 for v in states) and any(v == 3 for v in states)
+
+
+def _backlog(S):
+    qlen = [v for k, v in S.items() if k.startswith("P.") and k.endswith("_queue.len")]
+    return S["running"] >= 1 and bool(qlen) and qlen[0] >= 1
+
+
+CONDITIONS = {"workers_gone_while_stopping": _workers_gone_while_stopping, "backlog": _backlog}
+
+
 def run_prefix(system, state, prefix):
     """
     prefix: list of ("until", tid, {label|line|file}) / ("steps", tid, n) directives
@@ -96,6 +110,26 @@ def run_prefix(system, state, prefix):
                     break
             else:
                 raise RuntimeError("prefix directive did not terminate: {0}".format(directive))
+        elif kind == "rr_cond":
+            # round-robin over the threads listed in directive[2] until a named state condition holds
+            cond = CONDITIONS[directive[1]]
+            who = directive[2]
+            for _ in range(3000):
+                if cond(state):
+                    break
+                progressed = False
+                for t in who:
+                    if cond(state):
+                        break
+                    res = system.step_concrete(state, t, 0)
+                    if res is not None:
+                        state, path = res
+                        steps.append((t, 0, path))
+                        progressed = True
+                if not progressed:
+                    break
+            else:
+                raise RuntimeError("prefix directive did not terminate: {0}".format(directive))
         elif kind == "rr_prog":
             goal = directive[2]
             key = "T{0}.client{0}.prog".format(tid)
@@ -103,7 +137,7 @@ def run_prefix(system, state, prefix):
                 if state[key] >= goal or state["T{0}.pc".format(tid)] < 0:
                     break
                 progressed = False
-                for t in range(len(system.threads)):
+                for t in (directive[3] if len(directive) > 3 else range(len(system.threads))):
                     if state[key] >= goal:
                         break
                     res = system.step_concrete(state, t, 0)
